@@ -42,7 +42,7 @@ func init() {
 			add("common", "VerifC20Sets", cs("n1", 2, "n2", 2), 40)
 			add("detector", "VerifC05ExtArray", cs("n1", 2, "n2", 1, "h", 3, "v", 2, "hm", 5, "vm", 5), 40)
 			add("detector", "VerifC16Op", cs("op", 2, "h", 3, "v", 3, "mix", 0, "orders", 1), 100)
-			add("detector", "VerifC16Tiles", nil, 100)
+			add("detector", "VerifC16Tiles", cs("mix", 0), 100)
 			return is
 		},
 		static: scanGlobals,
